@@ -260,3 +260,134 @@ func c12kKeeperAll(maxLocks int) (cases int64, findings []foundViolation) {
 	}
 	return
 }
+
+// ---------------------------------------------------------------------------------------------
+// Eden Boost burn product. Uncommitting Eden and unstaking ELYS burn a SHARE of the account's Eden Boost —
+// first from the claimed bucket, the rest from the committed one — through a hook chain that crosses
+// three modules (commitment -> estaking -> commitment). In block-level histories the burnt amounts are a
+// few units at most (boost accrues per block), so this product builds the interesting ledgers directly,
+// the way rewards do (Keeper.AddEdenEdenBOnAccount + the real MsgCommitClaimedRewards), on discarded
+// branches of root R8, and sends the real messages. Judged: for every denom OTHER than the one the message
+// itself uncommits, the chain-wide committed total moves exactly as the sum over all accounts does.
+
+type c12kBoostCase struct {
+	EdenExtra, BoostCommitted, BoostClaimed int64
+	Op                                      string
+}
+
+func c12kBoostAll() (cases int64, findings []foundViolation) {
+	w := NewWorld(FixtureCfg{})
+	defer w.Close()
+	BuildRoot(w, "R8", NewOpLib())
+	k := w.App.CommitmentKeeper
+	lp1 := w.A("lp1")
+	base, _ := w.Ctx().CacheContext()
+	base = base.WithBlockHeight(w.Height() + 1).WithBlockTime(time.Unix(w.Env.Tm+5, 0).UTC())
+	deliver := func(ctx sdk.Context, msg sdk.Msg) (err error) {
+		c, write := ctx.CacheContext()
+		defer func() {
+			if r := recover(); r != nil {
+				err = fmt.Errorf("panic: %v", r)
+			}
+		}()
+		if _, err = w.App.MsgServiceRouter().Handler(msg)(c, msg); err == nil {
+			write()
+		}
+		return err
+	}
+	sums := func(ctx sdk.Context) (tot, sum map[string]math.Int) {
+		tot, sum = map[string]math.Int{}, map[string]math.Int{}
+		for _, c := range k.GetParams(ctx).TotalCommitted {
+			tot[c.Denom] = c.Amount
+		}
+		for _, cm := range k.GetAllCommitments(ctx) {
+			for _, t := range cm.CommittedTokens {
+				if v, ok := sum[t.Denom]; ok {
+					sum[t.Denom] = v.Add(t.Amount)
+				} else {
+					sum[t.Denom] = t.Amount
+				}
+			}
+		}
+		return
+	}
+	get := func(m map[string]math.Int, d string) math.Int {
+		if v, ok := m[d]; ok {
+			return v
+		}
+		return math.ZeroInt()
+	}
+	seen := map[string]bool{}
+	for _, edenExtra := range []int64{0, 1e9} {
+		for _, bc := range []int64{0, 1000, 1e9} {
+			for _, bl := range []int64{0, 10, 1e9} {
+				led, _ := base.CacheContext()
+				k.AddEdenEdenBOnAccount(led, lp1.Addr, sdk.NewCoins(sdk.NewCoin("ueden", math.NewInt(edenExtra+1)), sdk.NewCoin("uedenb", math.NewInt(bc+bl+1))))
+				ok := true
+				if edenExtra > 0 {
+					ok = ok && deliver(led, &ctypes.MsgCommitClaimedRewards{Creator: lp1.Addr.String(), Denom: "ueden", Amount: math.NewInt(edenExtra)}) == nil
+				}
+				if bc > 0 {
+					ok = ok && deliver(led, &ctypes.MsgCommitClaimedRewards{Creator: lp1.Addr.String(), Denom: "uedenb", Amount: math.NewInt(bc)}) == nil
+				}
+				if !ok {
+					continue
+				}
+				// the claimed bucket keeps bl+1 (+ what R8 left there): bring it down to exactly bl where asked
+				cm := k.GetCommitments(led, lp1.Addr)
+				if surplus := cm.GetClaimedForDenom("uedenb").SubRaw(bl); surplus.IsPositive() {
+					if _, err := k.DeductClaimed(led, lp1.Addr, "uedenb", surplus); err == nil {
+						cm2 := k.GetCommitments(led, lp1.Addr)
+						_ = cm2
+					}
+				}
+				cm = k.GetCommitments(led, lp1.Addr)
+				edenCommitted := cm.GetCommittedAmountForDenom("ueden")
+				ops := []struct {
+					name string
+					msg  sdk.Msg
+					own  string // the denom the message itself uncommits (judged by the W run, known finding 5)
+					end  bool   // the burn happens in estaking's end-blocker
+				}{
+					{"uncommit(ueden,half)", &ctypes.MsgUncommitTokens{Creator: lp1.Addr.String(), Denom: "ueden", Amount: edenCommitted.QuoRaw(2)}, "ueden", false},
+					{"uncommit(ueden,all)", &ctypes.MsgUncommitTokens{Creator: lp1.Addr.String(), Denom: "ueden", Amount: edenCommitted}, "ueden", false},
+					{"unstake(ueden,half)", &ctypes.MsgUnstake{Creator: lp1.Addr.String(), Asset: "ueden", Amount: edenCommitted.QuoRaw(2), ValidatorAddress: w.ValAddr.String()}, "ueden", false},
+					{"unstake(uelys,40%)", &ctypes.MsgUnstake{Creator: lp1.Addr.String(), Asset: "uelys", Amount: I(4e8), ValidatorAddress: w.ValAddr.String()}, "", true},
+				}
+				for _, op := range ops {
+					c := c12kBoostCase{edenExtra, bc, bl, op.name}
+					br, _ := led.CacheContext()
+					tot0, sum0 := sums(br)
+					cm0 := k.GetCommitments(br, lp1.Addr)
+					err := deliver(br, op.msg)
+					if err != nil {
+						continue
+					}
+					if op.end {
+						func() {
+							defer func() { recover() }()
+							w.App.EstakingKeeper.EndBlocker(br)
+						}()
+					}
+					cases++
+					tot1, sum1 := sums(br)
+					cm1 := k.GetCommitments(br, lp1.Addr)
+					for d := range map[string]bool{"uedenb": true, "ueden": true, "amm/pool/1": true, "stablestake/share": true} {
+						if d == op.own {
+							continue
+						}
+						dt, ds := get(tot1, d).Sub(get(tot0, d)), get(sum1, d).Sub(get(sum0, d))
+						if !dt.Equal(ds) {
+							cl := "total_committed_vs_accounts_on_boost_burn"
+							if !seen[cl+d+op.name] {
+								seen[cl+d+op.name] = true
+								findings = append(findings, foundViolation{Finding: Finding{Clause: cl, Culprit: "boost_burn", Disc: "denom=" + d + ",op=" + op.name, Detail: fmt.Sprintf("%s with committed Eden %s, Eden Boost committed %s / claimed %s: chain-wide committed total of %s moved by %s, the sum over all accounts by %s (account: committed %s -> %s, claimed %s -> %s)", op.name, edenCommitted, cm0.GetCommittedAmountForDenom("uedenb"), cm0.GetClaimedForDenom("uedenb"), d, dt, ds, cm0.GetCommittedAmountForDenom(d), cm1.GetCommittedAmountForDenom(d), cm0.GetClaimedForDenom(d), cm1.GetClaimedForDenom(d))}, Root: "K", Trace: []string{fmt.Sprintf("%+v", c)}})
+							}
+						}
+					}
+				}
+			}
+		}
+	}
+	return
+}
